@@ -150,7 +150,9 @@ Inductive mop :=
 | SetNode (n k v : N)             (* set_node_property *)
 | CreateEdge (src tgt : N)        (* create_edge *)
 | SetEdge (e k v : N)             (* set_edge_property *)
-| Tx (o : Txn.op).                (* transaction API; Gc w / GcAuto are the full gc_versions / gc_auto *)
+| Tx (o : Txn.op)                 (* transaction API; Gc w / GcAuto are the full gc_versions / gc_auto *)
+| CreateEdgeP (src tgt : N) (p : props)   (* create_edge + set_edge_property_sparse per property (Cypher CREATE / MERGE) *)
+| RemoveEdge (e k : N).           (* remove_edge_property (Cypher REMOVE r.k, SET r = {..}) *)
 
 Inductive mres :=
 | MId (id : N)                    (* created id *)
@@ -188,32 +190,59 @@ Definition set_node (s : store) (n k v : N) : store * mres :=
       end
   end.
 
-(* log_edge_creation: a relationship created after version 1 starts its log with the image it
-   is created with, keyed by the creation version *)
-Definition log_creation (s : store) (id : N) : list (N * list ver) :=
+(* removal / membership on a property map *)
+Definition eprem (k : N) (p : props) : props := filter (fun x => negb (N.eqb (fst x) k)) p.
+Definition ephas (k : N) (p : props) : bool := existsb (fun x => N.eqb (fst x) k) p.
+
+(* log_edge_creation + set_edge_property_sparse: a relationship created after version 1 starts
+   its log with the image it is created with, keyed by the creation version; the loader's
+   setter (CREATE / MERGE fill the properties through it right after create_edge) keeps that
+   same-version entry equal to the live properties, so the image is the relationship as created *)
+Definition log_creation (s : store) (id : N) (p : props) : list (N * list ver) :=
   if N.ltb 1 (curv s)
-  then set id [{| v_ver := curv s; v_props := cur_eprops s id |}] (elog s)
+  then set id [{| v_ver := curv s; v_props := p |}] (elog s)
   else elog s.
 
+(* create_edge followed by set_edge_property_sparse for every (key, value) of [p] *)
+Definition create_edge (s : store) (a b : N) (p : props) : store * mres :=
+  if has_node s a && has_node s b then
+    let id := next_edge s in
+    let p' := fold_left (fun m kv => pset (fst kv) (snd kv) m) p (cur_eprops s id) in
+    ({| tx := tx s; next_node := next_node s; next_edge := id + 1; nodes := nodes s;
+        live := live s ++ [id];
+        eprops := match p with [] => eprops s | _ => set id p' (eprops s) end;
+        elog := log_creation s id p' |}, MId id)
+  else (s, MErr).
+
+(* edge_pre_image / log_edge_post_image: a versioned change of a relationship's properties to
+   [post]: pre-image under version 1 at the first change of a relationship created at version 1
+   made at a later version, then the post-image keyed at current_version (coalescing) *)
+Definition edge_update (s : store) (e : N) (post : props) : store :=
+  let log0 := match lookup e (elog s) with Some l => l | None => [] end in
+  let log := match log0 with
+             | [] => if N.ltb 1 (curv s) then [{| v_ver := 1; v_props := cur_eprops s e |}] else []
+             | _ => log0
+             end in
+  let log' :=
+    match olast log with
+    | Some l0 => if N.eqb (v_ver l0) (curv s)
+                 then upd_last (fun x => {| v_ver := v_ver x; v_props := post |}) log
+                 else log ++ [{| v_ver := curv s; v_props := post |}]
+    | None => log ++ [{| v_ver := curv s; v_props := post |}]
+    end in
+  {| tx := tx s; next_node := next_node s; next_edge := next_edge s; nodes := nodes s;
+     live := live s; eprops := set e post (eprops s); elog := set e log' (elog s) |}.
+
+(* set_edge_property *)
 Definition set_edge (s : store) (e k v : N) : store * mres :=
   if negb (has_edge s e) then (s, MErr)
-  else
-    let post := pset k v (cur_eprops s e) in
-    let log0 := match lookup e (elog s) with Some l => l | None => [] end in
-    (* first update of a relationship created at version 1, at a later version: pre-image *)
-    let log := match log0 with
-               | [] => if N.ltb 1 (curv s) then [{| v_ver := 1; v_props := cur_eprops s e |}] else []
-               | _ => log0
-               end in
-    let log' :=
-      match olast log with
-      | Some l0 => if N.eqb (v_ver l0) (curv s)
-                   then upd_last (fun x => {| v_ver := v_ver x; v_props := post |}) log
-                   else log ++ [{| v_ver := curv s; v_props := post |}]
-      | None => log ++ [{| v_ver := curv s; v_props := post |}]
-      end in
-    ({| tx := tx s; next_node := next_node s; next_edge := next_edge s; nodes := nodes s;
-        live := live s; eprops := set e post (eprops s); elog := set e log' (elog s) |}, MOk).
+  else (edge_update s e (pset k v (cur_eprops s e)), MOk).
+
+(* remove_edge_property: a versioned change when the relationship has the property, else nothing *)
+Definition remove_edge (s : store) (e k : N) : store * mres :=
+  if has_edge s e && ephas k (cur_eprops s e)
+  then (edge_update s e (eprem k (cur_eprops s e)), MOk)
+  else (s, MOk).
 
 Definition step (s : store) (o : mop) : store * mres :=
   match o with
@@ -223,17 +252,14 @@ Definition step (s : store) (o : mop) : store * mres :=
           nodes := set id [{| v_ver := curv s; v_props := p |}] (nodes s);
           live := live s; eprops := eprops s; elog := elog s |}, MId id)
   | SetNode n k v => set_node s n k v
-  | CreateEdge a b =>
-      if has_node s a && has_node s b then
-        let id := next_edge s in
-        ({| tx := tx s; next_node := next_node s; next_edge := id + 1; nodes := nodes s;
-            live := live s ++ [id]; eprops := eprops s; elog := log_creation s id |}, MId id)
-      else (s, MErr)
+  | CreateEdge a b => create_edge s a b []
   | SetEdge e k v => set_edge s e k v
   | Tx (Gc w) => (gc s w, MGc (gc_count w (nodes s)) (gc_count w (elog s)))
   | Tx GcAuto => let w := watermark (tx s) in
                  (gc s w, MGc (gc_count w (nodes s)) (gc_count w (elog s)))
   | Tx o' => let (t', r) := Txn.step (tx s) o' in (with_tx s t', MTx r)
+  | CreateEdgeP a b p => create_edge s a b p
+  | RemoveEdge e k => remove_edge s e k
   end.
 
 Definition run_from (s : store) (ops : list mop) : store :=
